@@ -78,7 +78,7 @@ class FGen(Gen):
         if r.random() < 0.3:
             kw["loss_definition"] = r.choice(["Loss", "Loss+DCC"])
         if r.random() < 0.3:
-            kw["per_occurrence_limit"] = r.choice([1000, 250000.0, 5, 0.5])
+            kw["per_occurrence_limit"] = r.choice([1000, 250000.0, 5, 0.5, 0])
         if r.random() < 0.5:
             ks = sorted(r.sample(["lob", "state", "n", "w"], r.randint(1, 3)))
             kw["details"] = {k: self.detail_value(k) for k in ks}
@@ -90,9 +90,9 @@ class FGen(Gen):
     def detail_value(self, key):
         r = self.r
         if key in ("n", "layer"):
-            return r.choice([1, 2, 3, 10])
+            return r.choice([0, 0, 1, 2, 3, 10])      # 0 is a legitimate (falsy) detail value
         if key == "w":
-            return r.choice([0.5, 2.25, 7.0, 1024.125])
+            return r.choice([0.0, 0.0, 0.5, 2.25, 7.0, 1024.125])
         return r.choice(STR_VALS)
 
     def vary(self, kw, attr, i):
@@ -106,8 +106,12 @@ class FGen(Gen):
             kw[attr] = dict(sorted(d.items()))
         elif attr == "detail_num":          # numeric detail distinguishes the slices
             d = dict(kw.get("details") or {})
-            d["n"] = [20, 30, 40.5, 50][i % 4]
+            d["n"] = ([0, 30, 40.5, 50] if d.get("n") not in (0, 0.0) else [7, 30, 40.5, 50])[(i - 1) % 4]
             kw["details"] = dict(sorted(d.items()))
+        elif attr == "loss_detail_num":     # numeric loss detail distinguishes the slices, 0 among the values
+            d = dict(kw.get("loss_details") or {})
+            d["layer"] = ([0, 1, 2.5, 0.5] if d.get("layer") not in (0, 0.0) else [1, 4, 2.5, 0.5])[(i - 1) % 4]
+            kw["loss_details"] = dict(sorted(d.items()))
         elif attr == "detail_present":      # one slice has the key, the others do not
             d = dict(kw.get("details") or {})
             d.pop("zone", None)
@@ -145,7 +149,7 @@ class FGen(Gen):
 
 
 SLICE_DIFFS = ["risk_basis", "country", "currency", "reinsurance_basis", "loss_definition", "per_occurrence_limit",
-               "details", "loss_details", "detail_num", "detail_present", "several"]
+               "details", "loss_details", "detail_num", "loss_detail_num", "detail_present", "several"]
 
 
 def gen_frame_case(rng, k):
@@ -866,6 +870,15 @@ def directed_probes(ctx, tmp):
             cs.append(mkc(ms(s_), me(s_), me(s_ + lag), {"paid_loss": 1.0 + lag}, prev=prev))
             prev = me(s_ + lag)
     probes.append(("G6", Triangle(cs), "matrix", {"kind": "matrix_incremental_prev_from_empty_column"}))
+    # falsy detail / loss-detail values (0, 0.0) as the distinguishing and as a shared value
+    zcls = {"kind": "frame_falsy_detail_dropped"}
+    for nm, mk_m in [("details", lambda v: Metadata(details={"layer": v, "zone": 0})),
+                     ("loss_details", lambda v: Metadata(loss_details={"layer": v, "w": 0.0}))]:
+        for vals_name, mkv in [("scalar", lambda i: {"paid_loss": 1.0 + i}), ("samples", lambda i: {"paid_loss": a + i})]:
+            t = Triangle([mkc(*P, D(2020, 3, 31), mkv(i), mk_m(v)) for i, v in enumerate((0, 1))])
+            probes.append((f"Z/{nm}/{vals_name}", t, "csv", zcls))
+        t = Triangle([mkc(*P, D(2020, 3, 31), {"paid_loss": 1.0 + i}, mk_m(v), prev=D(2019, 12, 31)) for i, v in enumerate((0.0, 2.5))])
+        probes.append((f"Z/{nm}/incremental", t, "csv", zcls))
     n = 0
     for name, t, how, cls in probes:
         n += 1
